@@ -199,6 +199,26 @@ def check_ring_tuple(L, t, pre):
     got = {k: v for k, v in b.items() if k[1] == last}
     if got != exp:
         return "dec_api_ring:wrong-target", "tuple %r Q=%d: bonds at last atom %r expected %r" % (t, q, got, exp)
+    # the same ring symbol as the *last* symbol an enclosing branch may derive: its index symbols lie beyond the branch's
+    # budget and are still its index symbols (derivation.rst: the symbols after a ring symbol are read as its index)
+    if n <= 4095 and None not in t:      # (missing index symbols only exist at the very end of a string)
+        qs = misc.index_symbols(n)
+        s2 = "[N][Branch%d]" % len(qs) + "".join(qs) + "[C]" * n + "[%sRing%d]" % (pre, L) + "".join(x for x in t if x is not None) + "[O]"
+        try:
+            atoms = smiread.read_smiles(_decode(s2))
+        except Exception as e:
+            return "dec_api_ring:error", "%s on %r" % (type(e).__name__, s2 if len(s2) < 200 else s2[-120:])
+        b = smiread.bonds_of(atoms)
+        last = n
+        if q == 0:
+            exp = {(last - 1, last): min(3, 1 + order)}
+        else:
+            exp = {(last - 1, last): 1, (2, last): order}
+        got = {k: v for k, v in b.items() if k[1] == last}
+        tail_ok = len(atoms) == n + 2 and atoms[-1].elem == "O" and (0, n + 1) in b
+        if got != exp or not tail_ok:
+            return "dec_api_ring:wrong-target-at-branch-end", "tuple %r Q=%d in %r: bonds at the ring atom %r expected %r; %d atoms, [O] on N: %r" % (
+                t, q, s2 if len(s2) < 120 else s2[:40] + "..." + s2[-60:], got, exp, len(atoms), tail_ok)
     return None
 
 
